@@ -400,7 +400,7 @@ fn run15(ctx: &Ctx) {
     });
     // long programs: "programs of any length"
     ctx.shrink_iters.set(200);
-    let cases = ctx.share(ctx.tier.pick(320, 16_000));
+    let cases = ctx.share(ctx.tier.pick(320, 4_000));
     ctx.search("long", "long", cases, long_spec(ctx.tier.pick(17, 19) as u32), |spec, want_case| {
         let v = check15_long(spec);
         if !want_case {
